@@ -142,3 +142,147 @@ def prover_exploration(runs, seed):
         finally:
             shutil.rmtree(work, ignore_errors=True)
     return {"evaluations": runs, "distinct_nontrivial": n_ok, "samples": samples, "cli_runs": runs, "cli_runs_agreeing": n_ok}, failures
+
+
+# ------------------------------------------------------------------ C16: crash exploration
+
+import re as _re
+
+TOKEN = _re.compile(r"\s+|[A-Za-z_][A-Za-z0-9_]*|\d+|<->|->|<-|:-|\.\.|!=|<=|>=|[^\sA-Za-z0-9_]")
+SOUP = ["+", "-", "*", "/", "\\", "..", "(", ")", ",", ".", ":-", "not", "forall", "exists", "and", "or", "->", "<-", "<->", "=", "!=", "<", ">",
+        "#inf", "#sup", "#true", "#false", "$i", "$g", "$s", "{", "}", "[", "]", ":", ";", "%", "\n", "X", "p", "1", "0", "-1", "input", "output", "assumption", "spec", "lemma",
+        "definition", "inductive-lemma", "(forward)", "(backward)", "/", "é", "\x00", "\t"]
+BIG = ["9223372036854775807", "9223372036854775808", "-9223372036854775808", "-9223372036854775809", "18446744073709551615", "18446744073709551616",
+       "99999999999999999999999999", "0000000000000000000000001", "4294967296"]
+
+
+def seed_texts():
+    texts = {"lp": [], "spec": [], "ug": [], "po": []}
+    for f in sorted(Path("/repo/res/examples").rglob("*")):
+        if f.is_file() and f.suffix[1:] in texts:
+            try:
+                texts[f.suffix[1:]].append(f.read_text())
+            except Exception:
+                pass
+    texts["lp"] += ["p(X/2) :- q(X,I,J).\n{q(V+1)} :- p(V), not q(X).\n", ":- .\n", "", "% only a comment", "p(1..3).\n:- p(X), not not q(X), X != Q.\n",
+                    "p(V18446744073709551615).\n", "p(-9223372036854775808).\n"]
+    texts["spec"] += ["assumption: forall X (p(X) -> exists Y$i (Y$i > 0 and q(X, Y$i))).\nspec(forward)[s1]: p(a) <-> not not q.\n", "lemma: d(1).\ndefinition: forall X (d(X) <-> X = 1).\n",
+                      "spec: forall X (Y = 3).\n", ""]
+    texts["ug"] += ["input: p/1.\noutput: q/2.\ninput: n -> integer.\nassumption: forall X (p(X) -> X > n).\n", "input: p/99999999999999999999999.\n", ""]
+    texts["po"] += ["inductive-lemma: forall N$i (N$i >= 0 -> p(N$i)).\nlemma(forward): forall X (p(X) -> q(X)).\n", ""]
+    return texts
+
+
+def mutate(text, rng):
+    toks = TOKEN.findall(text)
+    if not toks:
+        toks = [""]
+    k = rng.randrange(8)
+    for _ in range(1 + rng.randrange(3)):
+        i = rng.randrange(len(toks))
+        if k == 0:
+            del toks[i]
+            if not toks:
+                toks = [""]
+        elif k == 1:
+            toks.insert(i, toks[i])
+        elif k == 2:
+            j = rng.randrange(len(toks))
+            toks[i], toks[j] = toks[j], toks[i]
+        elif k == 3:
+            nums = [n for n, t in enumerate(toks) if t.isdigit()]
+            if nums:
+                toks[rng.choice(nums)] = rng.choice(BIG)
+            else:
+                toks.insert(i, rng.choice(BIG))
+        elif k == 4:
+            toks[i:i] = [rng.choice(SOUP) for _ in range(1 + rng.randrange(6))]
+        elif k == 5:
+            toks.insert(i, rng.choice(["(", ")", "((", "))", "(" * 50, ")" * 50]))
+        elif k == 6:
+            toks[i] = rng.choice(SOUP)
+        else:
+            pass  # unmutated
+    return "".join(toks)
+
+
+COMMANDS = {
+    "lp": [["parse", "--as", "program", "--output", "default"], ["translate", "--with", "tau-star"], ["translate", "--with", "natural"], ["translate", "--with", "mu"],
+           ["analyze", "--property", "tightness"], ["analyze", "--property", "regularity"]],
+    "spec": [["parse", "--as", "specification", "--output", "default"], ["parse", "--as", "theory", "--output", "default"], ["translate", "--with", "gamma"], ["translate", "--with", "completion"],
+             ["simplify", "--portfolio", "classic", "--strategy", "fixpoint"], ["simplify", "--portfolio", "intuitionistic", "--strategy", "shallow"], ["simplify", "--portfolio", "ht", "--strategy", "recursive"]],
+    "ug": [["parse", "--as", "user-guide", "--output", "default"]],
+    "po": [["parse", "--as", "specification", "--output", "default"]],
+}
+
+
+def classify_known(text, stderr):
+    """known crash classes of the unchanged tree: the input feature AND the panic message must both match"""
+    cls = []
+    big = any(len(m.group().lstrip("0")) >= 19 and int(m.group()) > 9223372036854775807 for m in _re.finditer(r"\d+", text))
+    if big and "ParseIntError" in stderr:
+        cls.append("numeral-overflow")
+    if _re.search(r"V0*1844674407370955\d{4}", text) and "attempt to add with overflow" in stderr:
+        cls.append("global-index-overflow")
+    return cls
+
+
+def crash_exploration(runs, seed):
+    rng = random.Random(seed)
+    texts = seed_texts()
+    work = Path(tempfile.mkdtemp(prefix="c16_", dir=str(VERIF / "work")))
+    failures, known_seen, outcomes, samples = [], {}, {"ok": 0, "error": 0, "panic": 0, "signal": 0, "timeout": 0}, []
+    try:
+        for k in range(runs):
+            kind = rng.choice(["lp", "lp", "spec", "spec", "ug", "po"])
+            base = rng.choice(texts[kind])
+            text = mutate(base, rng)
+            f = work / f"in.{kind}"
+            f.write_text(text, errors="replace")
+            if rng.random() < 0.15:
+                # verify pipeline (no proof search): needs two programs or program+spec+ug
+                out = work / "out"
+                shutil.rmtree(out, ignore_errors=True)
+                out.mkdir()
+                other = work / "other.lp"
+                other.write_text(mutate(rng.choice(texts["lp"]), rng) if rng.random() < 0.5 else "p(X) :- q(X).\n", errors="replace")
+                if kind == "lp":
+                    cmd = ["verify", "--equivalence", "strong", "--no-proof-search", "--save-problems", str(out), str(f), str(other)]
+                else:
+                    ug = work / "g.ug"
+                    ug.write_text(mutate(rng.choice(texts["ug"]), rng) if kind != "ug" else text, errors="replace")
+                    spec = work / "s.spec"
+                    spec.write_text(text if kind in ("spec", "po") else rng.choice(texts["spec"]), errors="replace")
+                    cmd = ["verify", "--equivalence", "external", "--no-proof-search", "--save-problems", str(out), str(spec), str(other), str(ug)]
+            else:
+                cmd = rng.choice(COMMANDS[kind]) + [str(f)]
+            try:
+                p = subprocess.run([str(ANTHEM)] + cmd, stdout=subprocess.PIPE, stderr=subprocess.PIPE, timeout=20, env=dict(os.environ, RUST_BACKTRACE="0"))
+                err = p.stderr.decode("utf-8", "replace")
+                if p.returncode == 0:
+                    o = "ok"
+                elif p.returncode < 0:
+                    o = "signal"
+                elif "panicked at" in err:
+                    o = "panic"
+                elif err.strip():
+                    o = "error"
+                else:
+                    o = "error" if p.returncode != 0 else "ok"
+            except subprocess.TimeoutExpired:
+                o, err = "timeout", ""
+            outcomes[o] += 1
+            if len(samples) < 3 and o in ("ok", "error") and k % 7 == 0:
+                samples.append(f"{' '.join(cmd[:4])} on {len(text)} bytes ({kind}) -> {o}")
+            if o in ("panic", "signal", "timeout"):
+                alltext = text + "".join(x.read_text(errors="replace") for x in work.glob("*.*") if x.is_file() and x != f)
+                cls = classify_known(alltext if cmd[0] == "verify" else text, err)
+                if cls:
+                    for c in cls:
+                        known_seen[c] = known_seen.get(c, 0) + 1
+                else:
+                    failures.append({"command": cmd[:6], "input": text[:3000], "outcome": o, "stderr": err[-800:]})
+    finally:
+        shutil.rmtree(work, ignore_errors=True)
+    return {"evaluations": runs, "distinct_nontrivial": outcomes["ok"] + outcomes["error"], "samples": samples, "outcomes": outcomes,
+            "known_crash_classes_seen": known_seen}, failures, known_seen
